@@ -400,6 +400,162 @@ def long_history_probe(run, focus, nsteps=560):
         run.case(cj, nontrivial=True)
 
 
+def live_after_fabric_stop_probe(run, focus):
+    """an active object with live spy (and / or live trace) on; the fabric is stopped (which halts the object's thread at its next
+    wake-up and leaves the shared run flag cleared); then the stopped object is stepped by hand (post_fifo + next_rtc): the lines of
+    those steps are handed to the callbacks like any others - each once, in order, at the latest when the next active object starts
+    (oracle only)"""
+    import dsched
+    import miros.activeobject as mao
+    from charts import signals, return_status
+    for live_spy, live_trace in ((True, False), (False, True), (True, True)):
+        res = {"spy": [], "trace": [], "produced_spy": [], "produced_trace": 0}
+        saved_pp = mao.pp
+        mao.pp = lambda x: None
+        with dsched.Installed():
+            sched = dsched.Sched(dsched.round_robin_chooser(), max_steps=8000, trace=False)
+            dsched.Sched.current = sched
+            try:
+                def s1(chart, e):
+                    if e.signal in (signals.ENTRY_SIGNAL, signals.INIT_SIGNAL, signals.EXIT_SIGNAL):
+                        return return_status.HANDLED
+                    if e.signal_name == "A":
+                        return chart.trans(s2f[0])
+                    chart.temp.fun = chart.top
+                    return return_status.SUPER
+
+                def s2(chart, e):
+                    if e.signal in (signals.ENTRY_SIGNAL, signals.INIT_SIGNAL, signals.EXIT_SIGNAL):
+                        return return_status.HANDLED
+                    if e.signal_name == "A":
+                        return chart.trans(s1f[0])
+                    chart.temp.fun = chart.top
+                    return return_status.SUPER
+                s1.__name__, s2.__name__ = "s1", "s2"
+                s1f, s2f = [mhsm.spy_on(s1)], [mhsm.spy_on(s2)]
+
+                def quiet():
+                    me = sched.me()
+                    sched.yield_point("driver.settle", enabled=lambda: all(t is me or t.finished or not sched.is_enabled(t) for t in sched.threads))
+
+                def driver():
+                    ao = mao.ActiveObject(name="a")
+                    ao.live_spy, ao.live_trace = live_spy, live_trace
+                    ao.register_live_spy_callback(lambda line: res["spy"].append(line))
+                    ao.register_live_trace_callback(lambda line: res["trace"].append(line))
+                    ao.start_at(s1f[0])
+                    ao.post_fifo(Event(signal="A"))
+                    quiet()
+                    res["before_stop"] = (len(res["spy"]), len(res["trace"]))
+                    ao.fabric.stop()
+                    quiet()
+                    n_trace = len(ao.full.trace)
+                    for _k in range(2):
+                        ao.post_fifo(Event(signal="A"))
+                        ao.next_rtc()
+                        res["produced_spy"] += list(ao.spy_rtc())
+                        quiet()
+                    res["produced_trace"] = len(ao.full.trace) - n_trace
+                    # (the writer thread rests while the shared run flag is cleared; the next active object that starts wakes it again)
+                    other = mao.ActiveObject(name="b")
+                    other.start_at(s2f[0])
+                    quiet()
+                sched.spawn(driver, (), name="D")
+                res["outcome"] = sched.run()
+                res["errors"] = ["%s: %s: %s" % (t.name, type(t.error).__name__, t.error) for t in sched.threads if t.error is not None]
+            finally:
+                sched.shutdown()
+                mao.pp = saved_pp
+        cj = {"live_after_fabric_stop_probe": [live_spy, live_trace]}
+        run.count("live output of an object stepped by hand after the fabric was stopped")
+        run.traces_validated += 1
+        b_spy, b_trace = res.get("before_stop", (0, 0))
+        got_spy = res["spy"][b_spy:]
+        got_trace = res["trace"][b_trace:]
+        if res.get("errors"):
+            run.violate("%s/live-after-fabric-stop/error" % focus, "%s" % res["errors"][:2], cj)
+        elif live_spy and got_spy != res["produced_spy"]:
+            run.violate("%s/live-spy/after-fabric-stop" % focus, "after ActiveFabric().stop() the object was stepped twice by hand: the steps logged %d spy lines, the "
+                        "live-spy callback was handed %d of them (%s ...)" % (len(res["produced_spy"]), len(got_spy), got_spy[:3]), cj)
+        elif live_trace and len(got_trace) != res["produced_trace"]:
+            run.violate("%s/live-trace/after-fabric-stop" % focus, "after ActiveFabric().stop() the object was stepped twice by hand: %d trace records were "
+                        "appended, the live-trace callback was handed %d" % (res["produced_trace"], len(got_trace)), cj)
+        run.case(cj, nontrivial=True)
+
+
+def reentrant_step_probe(run, focus):
+    """a handler that posts a follow-up event to its own chart and runs it at once (`chart.post_fifo(X); chart.next_rtc()`) before it
+    answers its own event with a transition: two transitions, two trace records, each with the signal of ITS event (oracle only)"""
+    from charts import signals, return_status
+    for first_sig, nested_sig, spied_b in (("A", "X", True), ("GO", "NOTE", True), ("TICK", "A", True)):
+        def a(chart, e):
+            if e.signal in (signals.ENTRY_SIGNAL, signals.INIT_SIGNAL, signals.EXIT_SIGNAL):
+                return return_status.HANDLED
+            if e.signal_name == nested_sig:
+                return chart.trans(a_fn[0])                 # a self transition
+            if e.signal_name == first_sig:
+                chart.post_fifo(Event(signal=nested_sig))
+                chart.next_rtc()                            # the follow-up runs now, inside this step
+                return chart.trans(b_fn[0])
+            chart.temp.fun = chart.top
+            return return_status.SUPER
+
+        def b(chart, e):
+            if e.signal in (signals.ENTRY_SIGNAL, signals.INIT_SIGNAL, signals.EXIT_SIGNAL):
+                return return_status.HANDLED
+            chart.temp.fun = chart.top
+            return return_status.SUPER
+        a.__name__, b.__name__ = "a", "b"
+        a_fn, b_fn = [mhsm.spy_on(a)], [mhsm.spy_on(b) if spied_b else b]
+        hsm = mhsm.HsmWithQueues()
+        hsm.start_at(a_fn[0])
+        hsm.post_fifo(Event(signal=first_sig))
+        hsm.next_rtc()
+        recs = [(t.start_state, t.signal, t.end_state) for t in hsm.full.trace]
+        want = [("top", None, "a"), ("a", nested_sig, "a"), ("a", first_sig, "b")]
+        cj = {"reentrant_step_probe": [first_sig, nested_sig, spied_b]}
+        run.count("a handler that runs a follow-up event of its own chart inside its step")
+        run.traces_validated += 1
+        if [r[1:] for r in recs] != [w[1:] for w in want] or [r[0] for r in recs[:2]] != [w[0] for w in want[:2]]:
+            run.violate("%s/record-of-a-nested-step" % focus, "the handler of %s posts %s to its own chart, runs it at once (a self transition) and then "
+                        "transitions to b: the trace holds %s, expected %s" % (first_sig, nested_sig, recs, want), cj)
+        run.case(cj, nontrivial=True)
+
+
+def reserved_signal_probe(run, focus):
+    """a spied superstate that swallows every event it is offered (`return HANDLED` for anything that is not its own entry / exit /
+    init), handed the library's reserved signals 7-10 (the stop requests and the subscribe / publish meta events, which an active
+    object finds in its own queue) and one user signal: the reserved ones are not user signals - the spy shows the state line of the
+    invocation and no HOOK line - the user signal is hooked as usual (oracle only)"""
+    from charts import signals, return_status
+    for name in ("STOP_FABRIC_SIGNAL", "STOP_ACTIVE_OBJECT_SIGNAL", "SUBSCRIBE_META_SIGNAL", "PUBLISH_META_SIGNAL", "USER_PING"):
+        seen = []
+
+        def outer(chart, e):
+            if e.signal in (signals.ENTRY_SIGNAL, signals.INIT_SIGNAL, signals.EXIT_SIGNAL):
+                return return_status.HANDLED
+            if e.signal in (signals.SEARCH_FOR_SUPER_SIGNAL, signals.EMPTY_SIGNAL):
+                chart.temp.fun = chart.top
+                return return_status.SUPER
+            seen.append(e.signal_name)
+            return return_status.HANDLED
+        outer.__name__ = "swallow"
+        hsm = mhsm.HsmWithQueues()
+        hsm.start_at(mhsm.spy_on(outer))
+        hsm.post_fifo(Event(signal=name))
+        hsm.next_rtc()
+        lines = [l for l in hsm.spy_rtc() if name in l and not l.startswith(("POST_", "<-"))]
+        cj = {"reserved_signal_probe": name}
+        run.count("reserved signal handed to a state that swallows everything")
+        run.traces_validated += 1
+        # (every invocation gets its state line; the HOOK line is for user signals)
+        want = ["USER_PING:swallow", "USER_PING:swallow:HOOK"] if name == "USER_PING" else ["%s:swallow" % name]
+        if lines != want:
+            run.violate("%s/reserved-signal-logged-as-user-signal" % focus, "a spied state that answers HANDLED to everything is handed %s (%s): the step "
+                        "log shows %s, expected %s" % (name, "a user signal" if name == "USER_PING" else "reserved signal number %d" % signals[name], lines, want), cj)
+        run.case(cj, nontrivial=True)
+
+
 def meta_signal_probe(run):
     """an instrumented active object that subscribes / publishes before it is started: the meta events are answered by `top`, no
     state takes part, no transition happens: the trace holds the start record only and trace() can be printed"""
@@ -797,7 +953,7 @@ def handler_clear_probe(run, focus, n=30):
 
 def replay(case):
     cc = case.get("case", case)
-    if "handler_clear_probe" in cc or "prestart_probe" in cc or "live_callback_probe" in cc or "orthogonal_probe" in cc:
+    if "handler_clear_probe" in cc or "prestart_probe" in cc or "live_callback_probe" in cc or "orthogonal_probe" in cc or "reserved_signal_probe" in cc or "reentrant_step_probe" in cc or "live_after_fabric_stop_probe" in cc:
         print(cc)
         return 0
     if "meta_signal_probe" in cc:
